@@ -39,10 +39,19 @@ pub fn pool() -> Vec<Vec<u8>> {
 /// Two different frames of two different aircraft that share their checksum bytes — a coincidence a table keyed by
 /// part of the frame does not survive.
 pub fn same_parity_frame(target: &[u8], ca: u8, me: &[u8; 7]) -> Vec<u8> {
-    let par = |f: &[u8]| ((f[11] as u32) << 16) | ((f[12] as u32) << 8) | f[13] as u32;
-    let p0 = par(&enc::df17(ca, 0, me));
-    let mut rows: Vec<(u32, u32)> = (0..24).map(|i| (par(&enc::df17(ca, 1 << i, me)) ^ p0, 1u32 << i)).collect();
-    let mut want = par(target) ^ p0;
+    let f = enc::df17(ca, solve_address(&target[11..], |a| enc::df17(ca, a, me)), me);
+    assert_eq!(f[11..], target[11..], "same_parity_frame: system not solved");
+    assert_ne!(f[..11], target[..11]);
+    f
+}
+
+/// The 24-bit address for which `frame(address)` (a DF17 / DF18 frame, everything else fixed) ends in the given
+/// three parity bytes.
+pub fn solve_address(parity: &[u8], frame: impl Fn(u32) -> Vec<u8>) -> u32 {
+    let par = |f: &[u8]| ((f[f.len() - 3] as u32) << 16) | ((f[f.len() - 2] as u32) << 8) | f[f.len() - 1] as u32;
+    let p0 = par(&frame(0));
+    let mut rows: Vec<(u32, u32)> = (0..24).map(|i| (par(&frame(1 << i)) ^ p0, 1u32 << i)).collect();
+    let mut want = par(parity) ^ p0;
     let mut addr = 0u32;
     // Gaussian elimination: rows are (syndrome contribution, address bits that produce it)
     for bit in (0..24).rev() {
@@ -59,10 +68,7 @@ pub fn same_parity_frame(target: &[u8], ca: u8, me: &[u8; 7]) -> Vec<u8> {
             addr ^= piv.1;
         }
     }
-    let f = enc::df17(ca, addr & 0xffffff, me);
-    assert_eq!(f[11..], target[11..], "same_parity_frame: system not solved");
-    assert_ne!(f[..11], target[..11]);
-    f
+    addr & 0xffffff
 }
 
 /// "Decodable" in the property is what the deduplicator's own decoder accepts: both loops (dedup.rs, decode1090) call
